@@ -80,10 +80,16 @@ MCNext == \/ MCStart
 MCSpec == MCInit /\ [][MCNext]_mcvars
 
 \* ---- properties
+\* Decr(Encr(X)) = X under equal command histories: the step just taken from (s, pos) was an
+\* encryption of X giving out'; decrypting out' from the same (s, pos) returns X and arrives in
+\* the same successor state (and symmetrically for a decryption step).
+\* (= BashPrg!EncrDecrInverse with the encryption half already computed by the transition)
 EncrDecrLaw ==
-  [][(cmd' = "encr" /\ nstep' = nstep + 1) => EncrDecrInverse(s, pos, buflen, hist'[Len(hist')].data)]_mcvars
+  [][(cmd' = "encr" /\ nstep' = nstep + 1) =>
+       Duplex(s, pos, buflen, out', "decr") = [s |-> s', pos |-> pos', out |-> hist'[Len(hist')].data]]_mcvars
 DecrEncrLaw ==
-  [][(cmd' = "decr" /\ nstep' = nstep + 1) => DecrEncrInverse(s, pos, buflen, hist'[Len(hist')].data)]_mcvars
+  [][(cmd' = "decr" /\ nstep' = nstep + 1) =>
+       Duplex(s, pos, buflen, out', "encr") = [s |-> s', pos |-> pos', out |-> hist'[Len(hist')].data]]_mcvars
 \* what came out of a squeeze / encrypt / decrypt step has the requested length
 OutLenInv == (Len(hist) > 0 /\ hist[Len(hist)].op \in {"squeezeStep", "encrStep", "decrStep"})
                => Len(out) = hist[Len(hist)].n
